@@ -708,3 +708,274 @@ def _run_plain(req):
     except Exception as e:  # noqa
         return core.canon_exc(e)
     return core.canon_sig(r)
+
+
+# ----------------------------------------------------------------------------- C12
+def pok_spec(F, Pn, Wn):
+    """the advertised parameters per the property text, or None when the selection is inadmissible"""
+    by = {p[0]: p for p in F}
+    if set(Pn) & set(Wn):
+        return None
+    for n in Pn:
+        if n not in by or by[n][1] not in ('po', 'pk'):
+            return None
+    for n in Wn:
+        if n not in by or by[n][1] not in ('pk', 'ko'):
+            return None
+    seen_regular = False
+    for p in F:
+        if p[1] == 'pk':
+            if p[0] in Pn:
+                if seen_regular:
+                    return None
+            elif p[0] not in Wn:
+                seen_regular = True
+    A = []
+    for p in F:
+        if p[1] in ('po', 'pk') and p[0] not in Wn:
+            A.append((p[0], 'po' if p[0] in Pn else p[1], p[2]))
+    A += [(p[0], p[1], p[2]) for p in F if p[1] == 'vp']
+    A += [(p[0], p[1], p[2]) for p in F if p[1] == 'ko']
+    A += [(p[0], 'ko', p[2]) for p in F if p[1] == 'pk' and p[0] in Wn]
+    A += [(p[0], p[1], p[2]) for p in F if p[1] == 'vk']
+    return A
+
+
+def version_dependent(A, kw):
+    po = {p[0] for p in A if p[1] == 'po'}
+    return any(p[1] == 'vk' for p in A) and any(k in po for k, _ in kw)
+
+
+def c12(req, ra, ctr):
+    from . import real_mod
+    op = req[0]
+    fails = []
+    if op == 'prepare':
+        _, Pn, Wn, F = req
+        F3 = [(p[0], p[1], p[2]) for p in F]
+        A = pok_spec(F3, Pn, Wn)
+        ctr['c12:prepare'] += 1
+        if A is None:
+            if ra != ('err', 'ValueError'):
+                fails.append('inadmissible-accepted: posoargs=%s kwoargs=%s on %s gave %s instead of ValueError' % (Pn, Wn, core.fmt_params(F3), ra))
+        elif ra[0] != 'ok':
+            fails.append('admissible-rejected: posoargs=%s kwoargs=%s on %s raised %s' % (Pn, Wn, core.fmt_params(F3), ra))
+        elif ra[1] and ra[1][0] == 'inspect-differs':
+            fails.append('inspect-differs: inspect.signature and sigtools.signature disagree: %s' % (ra[1],))
+        else:
+            got = [(core.NAMES.name(p[0]), p[1], p[2]) for p in ra[1]]
+            if got != A:
+                fails.append('advertised: posoargs=%s kwoargs=%s on %s advertises %s, expected %s' % (
+                    Pn, Wn, core.fmt_params(F3), core.fmt_params(got), core.fmt_params(A)))
+        return fails
+    if op in ('deccall', 'deccallm'):
+        _, Pn, Wn, args, kw, F = req
+        F3 = [(p[0], p[1], p[2]) for p in F]
+        if op == 'deccallm':
+            # the selection is applied to the function that still has `self` as a regular first parameter
+            A = pok_spec([('self', 'pk', None)] + F3, Pn, Wn)
+            if A is not None:
+                A = [p for p in A if p[0] != 'self']
+        else:
+            A = pok_spec(F3, Pn, Wn)
+        if A is None:
+            if ra != ('err', 'ValueError'):
+                fails.append('inadmissible-accepted: call through posoargs=%s kwoargs=%s on %s gave %s' % (Pn, Wn, core.fmt_params(F3), ra))
+            return fails
+        if ra[0] == 'err':
+            return ['bad-exception: decorated call raised %s' % (ra,)]
+        if version_dependent(A, kw):
+            ctr['c12:version-dependent'] += 1
+            return []
+        ctr['c12:calls'] += 1
+        f = real_mod.base_func(tuple(core.P(*p) for p in A))
+        a, k = real_mod.call_values(args, kw)
+        try:
+            want = real_mod.canon_bound(A, f(*a, **k))
+        except TypeError:
+            want = ('typeerror',)
+        if want != ra:
+            fails.append('call-behaviour: %s with posoargs=%s kwoargs=%s (advertised %s) called with %s %s gives %s; a native function of the advertised signature gives %s' % (
+                core.fmt_params(F3), Pn, Wn, core.fmt_params(A), args, dict(kw), ra, want))
+        return fails
+    if op in ('startnames', 'endnames', 'autonames'):
+        F = req[-1]
+        F3 = [(p[0], p[1], p[2]) for p in F]
+        pk = [p[0] for p in F3 if p[1] == 'pk']
+        if op == 'autonames':
+            ex = set(req[1])
+            cands = [p[0] for p in F3 if p[1] == 'pk' and p[2] is not None]
+            want = None if not ex <= set(cands) else set(c for c in cands if c not in ex)
+            sel = (None, want)
+        else:
+            st, extra = req[1], req[2]
+            if st not in pk:
+                want = None
+            elif op == 'startnames':
+                want = set(extra) | set(pk[pk.index(st):])
+            else:
+                want = set(extra) | set(pk[:pk.index(st) + 1])
+            sel = want
+        if want is not None:
+            A = pok_spec(F3, tuple(want) if op == 'endnames' else (), tuple(want) if op != 'endnames' else ())
+            if A is None:
+                want = None
+        ctr['c12:names'] += 1
+        got = None if ra[0] == 'err' else set(core.NAMES.name(i) for i in ra[1])
+        if ra[0] == 'err' and ra[1] != 'ValueError':
+            fails.append('bad-exception: %s raised %s' % (op, ra[1]))
+        if got != want:
+            fails.append('names: %s %s on %s selects %s, expected %s' % (op, req[1:-1], core.fmt_params(F3), got, want))
+    return fails
+
+
+# ----------------------------------------------------------------------------- C20
+_C20_SEEN = set()
+
+
+def c20(req, ra, ctr):
+    from . import real_mod
+    from sigtools import support
+    op = req[0]
+    fails = []
+    if op == 'bindcallsig':
+        _, args, kw, ps = req
+        A = [(p[0], p[1], p[2]) for p in ps]
+        if version_dependent(A, kw):
+            ctr['c20:version-dependent'] += 1
+        else:
+            ctr['c20:calls'] += 1
+            want = real_mod.real_bindcall(('bindcall', args, kw, ps))
+            if want != ra:
+                fails.append('bind_callsig: %s called with %s %s: bind_callsig gives %s, CPython gives %s' % (
+                    core.fmt_params(A), args, dict(kw), ra, want))
+        key = tuple(A)
+        if key not in _C20_SEEN:
+            _C20_SEEN.add(key)
+            fails += _c20_per_sig(ps, ctr)
+    elif op == 'makeup':
+        _, nextra, ps = req
+        named = [p[0] for p in ps if p[1] == 'po'] + [p[0] for p in ps if p[1] == 'pk'] + [p[0] for p in ps if p[1] == 'ko']
+        nm = [core.NAMES.id(n) for n in named] + [900 + i for i in range(nextra)]
+        kwn = nm + [core.NAMES.id(p[0]) for p in ps if p[1] == 'vp'] + [core.NAMES.id(p[0]) for p in ps if p[1] == 'vk']
+        got = set(ra[2].split(';')) if ra[2] else set()
+        ctr['c20:makeup'] += 1
+        for i in range(len(nm) + 1):
+            for r in range(len(kwn) + 1):
+                for K in itertools.combinations(kwn, r):
+                    e = '%s|%s' % ('.'.join(str(x) for x in nm[:i]) or '_', '.'.join(str(x) for x in sorted(K)) or '_')
+                    if e not in got:
+                        fails.append('make_up_callsigs: misses prefix %s with keywords %s for %s' % (nm[:i], K, core.fmt_params(ps)))
+                        return fails
+    return fails
+
+
+def _sig_text(ps, ann=False):
+    out = []
+    prev = None
+    for p in ps:
+        n, k, d = p[0], p[1], p[2]
+        a = p[3] if len(p) > 3 else None
+        if prev == 'po' and k != 'po':
+            out.append('/')
+        if k == 'ko' and prev not in ('vp', 'ko'):
+            out.append('*')
+        t = {'vp': '*', 'vk': '**'}.get(k, '') + n
+        if a is not None:
+            t += ':%d' % a
+        if d is not None:
+            t += '=%r' % (core.dflt_obj(d),)
+        out.append(t)
+        prev = k
+    if prev == 'po':
+        out.append('/')
+    return ', '.join(out)
+
+
+def _c20_per_sig(ps, ctr):
+    """string layer (validated only): s()/f()/func_from_sig round trips for every option combination;
+    sort_callsigs partitions like bind_callsig and the function made by f returns its arguments by name"""
+    import inspect, warnings
+    from sigtools import support, specifiers
+    fails = []
+    ctr['c20:signatures'] += 1
+    has_po = any(p[1] == 'po' for p in ps)
+    # annotate a subset: first and last named parameter
+    named_idx = [i for i, p in enumerate(ps)]
+    aps = [tuple(p[:3]) + ((40 + i,) if (i % 2 == 0) else (None,)) for i, p in enumerate(ps)]
+    text = _sig_text(aps)
+    want = [(p[0], p[1], p[2], p[3]) for p in aps]
+    combos = list(itertools.product([False, True], repeat=3))
+    for (ua, upo, ukw) in combos:
+        if has_po and (upo or ukw or ua):
+            continue      # the property covers the modifiers spellings only for signatures without positional-only parameters
+        for future in ((), ('annotations',)):
+            for ret in (None, '99'):
+                try:
+                    with warnings.catch_warnings():
+                        warnings.simplefilter('ignore')
+                        kwargs = dict(use_modifiers_annotate=ua, use_modifiers_posoargs=upo, use_modifiers_kwoargs=ukw,
+                                      future_features=future)
+                        sig = support.s(text, ret, **kwargs) if ret else support.s(text, **kwargs)
+                        sig = sig.evaluated()
+                except Exception as e:  # noqa
+                    fails.append('s-raises: s(%r, %r, annotate=%s posoargs=%s kwoargs=%s future=%s) raised %s: %s' % (
+                        text, ret, ua, upo, ukw, future, type(e).__name__, e))
+                    continue
+                got = [(p.name, core.KIND_NAME[p.kind], None if p.default is p.empty else core.dflt_tok(p.default),
+                        None if p.annotation is p.empty else p.annotation) for p in sig.parameters.values()]
+                native = not (ua or upo or ukw)
+                if native or not has_po:
+                    a, b = got, want
+                    if not native:
+                        # up to the order of keyword-only parameters
+                        a = [x for x in got if x[1] != 'ko'] + sorted(x for x in got if x[1] == 'ko')
+                        b = [x for x in want if x[1] != 'ko'] + sorted(x for x in want if x[1] == 'ko')
+                    if a != b:
+                        fails.append('s-roundtrip: s(%r, annotate=%s posoargs=%s kwoargs=%s future=%s) = %s' % (
+                            text, ua, upo, ukw, future, sig))
+                    rgot = None if sig.return_annotation is sig.empty else sig.return_annotation
+                    if rgot != (99 if ret else None):
+                        fails.append('s-return: s(%r, %r, annotate=%s future=%s) has return annotation %r' % (text, ret, ua, future, rgot))
+    # func_from_sig reproduces the signature
+    try:
+        with warnings.catch_warnings():
+            warnings.simplefilter('ignore')
+            sig0 = support.s(text, '99')
+            f2 = support.func_from_sig(sig0)
+            sig2 = specifiers.signature(f2)
+        if str(sig2) != str(sig0):
+            fails.append('func_from_sig: %s -> %s' % (sig0, sig2))
+    except Exception as e:  # noqa
+        fails.append('func_from_sig-raises: %r: %s %s' % (text, type(e).__name__, e))
+    # sort_callsigs partitions like bind_callsig / the function made by f
+    with warnings.catch_warnings():
+        warnings.simplefilter('ignore')
+        f = support.f(_sig_text([p[:3] for p in ps]))
+        sig = specifiers.signature(f)
+        cs = support.make_up_callsigs(sig, extra=1)
+        valid, invalid = support.sort_callsigs(sig, cs)
+    if len(valid) + len(invalid) != len(cs):
+        fails.append('sort_callsigs: %d + %d != %d' % (len(valid), len(invalid), len(cs)))
+    A = [(p[0], p[1], p[2]) for p in ps]
+    for a, k, bound in valid:
+        if version_dependent(A, list(k.items())):
+            continue
+        try:
+            r = f(*a, **k)
+        except TypeError:
+            fails.append('sort_callsigs-valid-rejected: %s rejects *%s **%s listed as valid' % (sig, a, k))
+            break
+        if r != bound:
+            fails.append('f-returns: f(%r)(*%s, **%s) returned %s, bind_callsig says %s' % (_sig_text(ps), a, k, r, bound))
+            break
+    for a, k in invalid:
+        if version_dependent(A, list(k.items())):
+            continue
+        try:
+            f(*a, **k)
+        except TypeError:
+            continue
+        fails.append('sort_callsigs-invalid-accepted: %s accepts *%s **%s listed as invalid' % (sig, a, k))
+        break
+    return fails
